@@ -824,6 +824,16 @@ def run(ctx):
                       "the resize amount does not depend on %s" % [x.split(":")[1] for x in missing])
     n6 = rule_reader_exact(fb, res)
     res.floor("C13-R6", 4, n6)
+    # self-valid: what a builder can produce, the class's own validator accepts — it holds nothing against a payload but lengths that do not
+    # fit, the protocol's error flags and undefined enumerators (C04-R3's closed world); a validator with an extra demand on the size or on
+    # another field rejects payloads that setData stored correctly
+    res.rule("C13-R8", "self-valid payloads: every payload validator rejects only for the protocol's reasons — announced lengths that do not fit, error "
+                        "flags, undefined enumerators — and the payload size enters it only as a lower bound (C04-R3, shared)")
+    from rules import c04
+    for o in c04.run(ctx).obligations:
+        if o["rule"] == "C04-R3" and o["key"].startswith("invalid-only-for-protocol-reasons"):
+            res.check(o["ok"], "C13-R8", o["key"], o["loc"], o["detail"], o["detail"])
+    res.floor("C13-R8", 7)
     from rules import readers
     n7 = readers.interface_reader_positions(fb, res, "C13-R7")
     res.floor("C13-R7", 3, n7)
